@@ -262,6 +262,29 @@ Proof.
   - rewrite report_no_table in H. apply (Main false []); [constructor|exact H].
 Qed.
 
+(** On a database without a revisions table the report starts at the LAST checkpoint. *)
+Lemma report_fresh_checkpoint dirty (revs : list rev) pre ck rest :
+  f_ckpt ck = true -> (forall f, In f rest -> f_ckpt f = false) ->
+  report false dirty (pre ++ ck :: rest) revs =
+  SOk (mkStatus (ck :: rest) [] (ck :: rest) [] CurNone (NextVer (f_version ck)) 0 0 false false).
+Proof.
+  intros Hck Hrest. rewrite report_no_table. unfold report. cbn [negb]. cbv iota.
+  destruct (first_run_checkpoint hash (lin false) eq_refl eq_refl) as [H _].
+  fold (lin false). rewrite (H pre ck rest Hck Hrest). cbn [fst].
+  rewrite Nat.eqb_refl. reflexivity.
+Qed.
+
+Lemma report_fresh_no_checkpoint dirty (revs : list rev) all :
+  (forall f, In f all -> f_ckpt f = false) -> all <> [] ->
+  report false dirty all revs =
+  SOk (mkStatus all [] all [] CurNone (NextVer (f_version (hd (mkFile [] [] false) all))) 0 0 false false).
+Proof.
+  intros Hn Hne. rewrite report_no_table. unfold report. cbn [negb]. cbv iota.
+  destruct (first_run_checkpoint hash (lin false) eq_refl eq_refl) as [_ H].
+  fold (lin false). rewrite (H all Hn). destruct all as [|a l]; [congruence|]. cbn [fst finish].
+  rewrite Nat.eqb_refl. reflexivity.
+Qed.
+
 (** ** 5. migrate apply [n] *)
 Lemma firstn_apply_count {A} n (p : list A) :
   firstn (apply_count n (length p)) p = if 0 <? n then firstn n p else p.
